@@ -1,5 +1,7 @@
 import T4V.Proofs.Transform
 import T4V.Proofs.RealOK
+import T4V.Proofs.Rot
+import T4V.Model.TRCard
 /-!
 # Property C04 — coordinate transformations move surfaces by the MCNP rigid motion
 
@@ -205,6 +207,112 @@ theorem flipped_cone_y (pt : V3 α) (uy tana at_ s : α) (huy : uy ≠ 0) (hs : 
     refine ⟨_, _, by simp [convertSurf, convertCone, hb]; rfl, rfl, rfl, _, rfl, ?_⟩
     simp [collNegative, TSurf.f, TSurf.fLocal, h10, hu, not_lt.mpr hu.le, Bool.and_comm, mul_div_cancel_left₀ _ huy]
     try (congr 1; simp only [decide_eq_decide]; constructor <;> intro h <;> nlinarith)
+
+/-! ### TR cards: abbreviated matrices, m = −1 -/
+
+/-- **TR cards with two rows given** (six entries, or nine with three `J`): the missing row is the vector
+product of the two given ones in cyclic order; every supplied entry is reproduced -/
+theorem two_rows_completed (a b : V3 α) :
+    normMatrix (row9 a ++ row9 b) = .ok (row9 a ++ row9 b ++ row9 (a.cross b)) ∧
+    normMatrix (row9 a ++ row9 b ++ [none, none, none]) = .ok (row9 a ++ row9 b ++ row9 (a.cross b)) ∧
+    normMatrix ([none, none, none] ++ row9 a ++ row9 b) = .ok (row9 (a.cross b) ++ row9 a ++ row9 b) ∧
+    normMatrix (row9 b ++ [none, none, none] ++ row9 a) = .ok (row9 b ++ row9 (a.cross b) ++ row9 a) := by
+  refine ⟨?_, ?_, ?_, ?_⟩ <;>
+    simp [normMatrix, normMatrix6, rows3, row9, v3?, isRowwise, List.replicate]
+
+/-- **two columns given** (`J` in the third place of every row): the missing column is the vector product -/
+theorem two_columns_completed (a b : V3 α) :
+    normMatrix [some a.x, some b.x, none, some a.y, some b.y, none, some a.z, some b.z, none] =
+      .ok [some a.x, some b.x, some (a.cross b).x, some a.y, some b.y, some (a.cross b).y,
+           some a.z, some b.z, some (a.cross b).z] := by
+  simp [normMatrix, normMatrix6, rows3, row9, v3?, isRowwise, transpose9, List.replicate]
+
+/-- … and the completed matrix is a proper rotation whenever the two given vectors are orthonormal -/
+theorem completed_matrix_is_rotation (a b : V3 α) (haa : a.dot a = 1) (hbb : b.dot b = 1) (hab : a.dot b = 0) :
+    (Rot ⟨a, b, a.cross b⟩ ∧ det3 ⟨a, b, a.cross b⟩ = 1) ∧
+    (Rot ⟨a.cross b, a, b⟩ ∧ det3 ⟨a.cross b, a, b⟩ = 1) ∧
+    (Rot ⟨b, a.cross b, a⟩ ∧ det3 ⟨b, a.cross b, a⟩ = 1) :=
+  cross_completion a b haa hbb hab
+
+/-- a 13th entry other than 1 (m = −1: the displacement is given in the auxiliary frame) is rejected -/
+theorem m_minus_one_rejected (snap : α) (tr : List (Option α)) (m : α) (h12 : tr.length = 12) (hm : m ≠ 1) :
+    normTransform snap (tr ++ [some m]) = .error .mMinusOne := by
+  have hlen : (tr ++ [some m]).length = 13 := by simp [h12]
+  have hbeq : (m == 1) = false := by simpa using hm
+  simp [normTransform, hlen, hbeq]
+
+/-- three entries: a pure displacement -/
+theorem displacement_only (snap x y z : α) :
+    normTransform snap [some x, some y, some z] = .ok [x, y, z, 1, 0, 0, 0, 1, 0, 0, 0, 1] := by
+  simp [normTransform, identity9]
+
+theorem sqrt_one (ok : TranscOK α) : Transc.sqrt (1:α) = 1 := by
+  have h1 := ok.sqrt_sq 1 zero_le_one
+  have h2 := ok.sqrt_pos 1 one_pos
+  have : (Transc.sqrt (1:α) - 1) * (Transc.sqrt (1:α) + 1) = 0 := by linear_combination h1
+  rcases mul_eq_zero.mp this with h | h
+  · linear_combination h
+  · exfalso; have : (0:α) < Transc.sqrt 1 + 1 := by positivity
+    exact this.ne' h
+
+theorem renorm_unit (ok : TranscOK α) (v : V3 α) (h : v.dot v = 1) : renorm? v = some v := by
+  unfold renorm?
+  simp only [h, sqrt_one ok]
+  have : ((1:α) == 0) = false := by simp
+  simp only [this, Bool.false_eq_true, if_false, div_one]
+  congr 1
+  cases v; simp [V3.smul]
+
+/-- for a proper rotation every row is the vector product of the two that follow it -/
+theorem row_is_cross (m : M3 α) (hR : Rot m) (hdet : det3 m = 1) : m.r2.cross m.r3 = m.r1 := by
+  obtain ⟨-, -, -, -, -, -, c11, c22, c33, c12, c13, c23⟩ := hR
+  simp only [det3, V3.dot, V3.cross] at hdet
+  apply T4V.Tr.V3.ext' <;> simp only [V3.cross]
+  · linear_combination (-(m.r2.y * m.r3.z - m.r2.z * m.r3.y)) * c11 - (m.r3.x * m.r2.z - m.r2.x * m.r3.z) * c12
+      - (m.r2.x * m.r3.y - m.r2.y * m.r3.x) * c13 + m.r1.x * hdet
+  · linear_combination (-(m.r2.y * m.r3.z - m.r2.z * m.r3.y)) * c12 - (m.r3.x * m.r2.z - m.r2.x * m.r3.z) * c22
+      - (m.r2.x * m.r3.y - m.r2.y * m.r3.x) * c23 + m.r1.y * hdet
+  · linear_combination (-(m.r2.y * m.r3.z - m.r2.z * m.r3.y)) * c13 - (m.r3.x * m.r2.z - m.r2.x * m.r3.z) * c23
+      - (m.r2.x * m.r3.y - m.r2.y * m.r3.x) * c33 + m.r1.z * hdet
+/-- **`adjust_matrix` leaves a proper rotation unchanged** (exact arithmetic, no snapping): a full nine-entry
+matrix that is a rotation is used as given -/
+theorem adjust_keeps_rotation (ok : TranscOK α) (m : M3 α) (hR : Rot m) (hdet : det3 m = 1) :
+    adjustMatrix (0:α) m.toList = some m.toList := by
+  obtain ⟨a, b, c⟩ := m
+  -- the columns
+  have hc0 : (⟨a.x, b.x, c.x⟩ : V3 α).dot ⟨a.x, b.x, c.x⟩ = 1 := by simpa [V3.dot] using hR.c11
+  have hc1 : (⟨a.y, b.y, c.y⟩ : V3 α).dot ⟨a.y, b.y, c.y⟩ = 1 := by simpa [V3.dot] using hR.c22
+  have hc2 : (⟨a.z, b.z, c.z⟩ : V3 α).dot ⟨a.z, b.z, c.z⟩ = 1 := by simpa [V3.dot] using hR.c33
+  have hc01 : (⟨a.x, b.x, c.x⟩ : V3 α).dot ⟨a.y, b.y, c.y⟩ = 0 := by simpa [V3.dot] using hR.c12
+  have hc02 : (⟨a.x, b.x, c.x⟩ : V3 α).dot ⟨a.z, b.z, c.z⟩ = 0 := by simpa [V3.dot] using hR.c13
+  have hc12 : (⟨a.y, b.y, c.y⟩ : V3 α).dot ⟨a.z, b.z, c.z⟩ = 0 := by simpa [V3.dot] using hR.c23
+  have hcross : (⟨a.x, b.x, c.x⟩ : V3 α).cross ⟨a.y, b.y, c.y⟩ = ⟨a.z, b.z, c.z⟩ := by
+    have hRot : Rot (⟨⟨a.z, b.z, c.z⟩, ⟨a.x, b.x, c.x⟩, ⟨a.y, b.y, c.y⟩⟩ : M3 α) :=
+      Rot.of_rows _ hc2 hc0 hc1 (by rw [← hc02]; simp only [V3.dot]; ring) (by rw [← hc12]; simp only [V3.dot]; ring) hc01
+    have hd : det3 (⟨⟨a.z, b.z, c.z⟩, ⟨a.x, b.x, c.x⟩, ⟨a.y, b.y, c.y⟩⟩ : M3 α) = 1 := by
+      rw [← hdet]; simp only [det3, V3.dot, V3.cross]; ring
+    exact row_is_cross _ hRot hd
+  have ha := renorm_unit ok a hR.r11
+  have hb := renorm_unit ok b hR.r22
+  have hcn := renorm_unit ok c hR.r33
+  have hv1 : (V3.smul ((⟨a.x, b.x, c.x⟩ : V3 α).dot ⟨a.x, b.x, c.x⟩) ⟨a.y, b.y, c.y⟩).sub
+      (V3.smul ((⟨a.x, b.x, c.x⟩ : V3 α).dot ⟨a.y, b.y, c.y⟩) ⟨a.x, b.x, c.x⟩) = ⟨a.y, b.y, c.y⟩ := by
+    rw [hc0, hc01]; simp [V3.smul, V3.sub]
+  have h10 : ∀ x : α, ¬ (fabs x < 0) := by
+    intro x; unfold fabs; split <;> rename_i h <;> simp only [not_lt]
+    · exact (neg_pos.mpr h).le
+    · exact not_lt.mp h
+  simp only [adjustMatrix, M3.toList, V3.toList, List.cons_append, List.nil_append, rows3, vrow, Option.bind_eq_bind,
+    Option.bind_some, ha, hb, hcn, hv1, renorm_unit ok _ hc1, renorm_unit ok _ hc0, hcross,
+    renorm_unit ok _ hc2, hc2, zero_lt_one, if_true, h10, if_false, transpose9]
+
+/-- a full TR card (displacement and the nine cosines of a proper rotation) is taken as written -/
+theorem full_rotation_kept (ok : TranscOK α) (o : V3 α) (m : M3 α) (hR : Rot m) (hdet : det3 m = 1) :
+    normTransform (0:α) ((o.toList ++ m.toList).map some) = .ok (o.toList ++ m.toList) := by
+  have hadj := adjust_keeps_rotation ok m hR hdet
+  obtain ⟨a, b, c⟩ := m
+  simp only [M3.toList, V3.toList, List.cons_append, List.nil_append] at hadj
+  simp [normTransform, normMatrix, M3.toList, V3.toList, hadj]
 
 /-- non-vacuity over ℝ: the permutation x → y → z → x with a displacement -/
 example : TrConverted "c/z" [1, 2, 3] (⟨⟨5, -1, 2⟩, ⟨⟨0, 1, 0⟩, ⟨0, 0, 1⟩, ⟨1, 0, 0⟩⟩⟩ : Motion ℝ) :=
